@@ -12,7 +12,7 @@ from __future__ import annotations
 import ast
 from typing import Dict, FrozenSet, List, Optional, Set, Tuple
 
-from ..model import Program, AnalysisError, dotted, FuncInfo, walk_local
+from ..model import Program, AnalysisError, dotted, FuncInfo, walk_local, parents_of
 from ..report import RuleResult, guard
 from ..astutil import src, site, call_name, calls_in
 
@@ -743,5 +743,40 @@ def js_raisable(prog: Program) -> RuleResult:
     return r
 
 
+def js_entry(prog: Program) -> RuleResult:
+    """from_json is not the only way into deserialisation: the engine the library creates reads JSON columns through a deserialiser of its own
+    making, helpers wrap it.  A caller inside the library that catches one of the documented errors and goes on - returns the raw document,
+    a default - hands out 'a wrongly typed object' for exactly the documents the property is about (and for any nested document that lacks
+    its tag below a correct one)."""
+    r = RuleResult("JS-ENTRY", "no caller of from_json inside the library swallows the documented errors", floor=1)
+    base = prog.cls("json_serializer.JSONSerializationError")
+    fam = {c.name for c in prog.subclasses(base.qual, strict=False)} | {base.name, "Exception", "BaseException", "ValueError", "TypeError", "KeyError", "LookupError"}
+    n = 0
+    for f in sorted(prog.functions.values(), key=lambda x: x.qual):
+        calls = [c for c in calls_in(f.node) if call_name(c) in ("from_json", "_from_json") and not f.module.name.endswith("adapters.json_serializer")]
+        lam = [c for x in ast.walk(f.node) if isinstance(x, ast.Lambda) for c in ast.walk(x.body) if isinstance(c, ast.Call) and call_name(c) == "from_json"]
+        if not calls and not lam:
+            continue
+        n += 1
+        par = parents_of(f.node)
+        bad = None
+        for c in calls:
+            cur = c
+            while cur in par:
+                up = par[cur]
+                if isinstance(up, ast.Try) and any(cur is st or cur in ast.walk(st) for st in up.body):
+                    for h in up.handlers:
+                        names = [src(t).split(".")[-1] for t in (h.type.elts if isinstance(h.type, ast.Tuple) else [h.type] if h.type is not None else [])]
+                        if (not names or any(nm in fam for nm in names)) and not (h.body and isinstance(h.body[-1], ast.Raise)):
+                            bad = bad or (c, h)
+                cur = up
+        r.check(bad is None, f"{f.short}#errors-propagate", site(f, bad[1]) if bad else site(f), src(bad[1]).splitlines()[0][:80] if bad else "", "the documented errors of from_json leave the caller",
+                f"`{src(bad[1]).splitlines()[0] if bad else ''}` in {f.short} catches an error of from_json and goes on: a document without a usable type tag (also one nested below a correct tag) "
+                "comes out as a plain dict / list instead of raising")
+    if n < 1:
+        raise AnalysisError("JS-ENTRY: no caller of from_json outside json_serializer.py (the engine's deserialiser is the confirmed instance)")
+    return r
+
+
 def run(prog: Program, tier: str) -> List[RuleResult]:
-    return [guard(lambda: js_escape(prog)), guard(lambda: js_registry(prog)), guard(lambda: js_relabel(prog)), guard(lambda: js_raisable(prog))]
+    return [guard(lambda: js_entry(prog)), guard(lambda: js_escape(prog)), guard(lambda: js_registry(prog)), guard(lambda: js_relabel(prog)), guard(lambda: js_raisable(prog))]
